@@ -8,7 +8,7 @@ if HERE not in sys.path:
     sys.path.insert(0, HERE)
 
 from engine import step, report, loader   # noqa: E402
-from engine.universe import FIVE, C_ONE, C_MULTI, D_ONE, D_MULTI, D_MULTI15          # noqa: E402
+from engine.universe import FIVE, C_ONE, C_MULTI, D_ONE, D_MULTI, D_MULTI15, D_ONE_ALT          # noqa: E402
 
 ALGOS12 = ["md5", "sha1", "sha256", "sha384", "sha512", "sha224", "sha3_224", "sha3_256", "sha3_384", "sha3_512",
            "blake2b", "blake2s"]
